@@ -211,6 +211,27 @@ func propC04(c *Ctx) {
 	// every leaf position of every tree size is provable: the documented tree pairs a
 	// sibling-less node with itself, so the node hash must cover the "equal" outcome too
 	c.Rule("C04.R7", func() { nodeHashAndFold(c, "C04.R7") })
+	// a tree with a single withdrawal has that leaf as its root and an EMPTY proof: the claim
+	// validator must accept a claim without proof items
+	c.Rule("C04.R8", func() {
+		v := c.Method(hostTypes, "MsgFinalizeTokenWithdrawal", "Validate")
+		o := c.Ob("C04.R8", "MsgFinalizeTokenWithdrawal.Validate accepts an empty proof list (single-leaf trees are claimable)")
+		okEmpty := false
+		for _, p := range c.Paths(v, PO{Params: []string{"msg", "ac"}, Visits: 4}) {
+			o.Paths++
+			if !p.OK() || p.Panic {
+				continue
+			}
+			o.Sites++
+			rel, n := p.Relation(len(p.Events), keyIs("builtin.len(msg.WithdrawalProofs)"), keyIs("0"))
+			if n == 0 || rel&rEQ != 0 {
+				okEmpty = true
+			}
+		}
+		if !okEmpty {
+			o.Fail(c.W.Pos(v.Pos()), "every accepting path requires at least one proof item: the only valid claim of a single-leaf tree (empty proof) is rejected", nil)
+		}
+	})
 	c.Extra["transport_agreement"] = "L2 event attributes (from,to,denom->base_denom,amount,l2_sequence) are the verbatim inputs of the L1 leaf (C04.R2 + C04.R5)"
 
 	c.Rule("C04.R4", func() {
@@ -251,6 +272,8 @@ func propC08(c *Ctx) {
 		"the L2 denom derivation is used consistently (event l2_denom, TokenPairs key, finalize event)")
 	c.NotDecided = append(c.NotDecided, "the cross-chain equation itself under interleavings of relays, proposals and claims: it needs a two-chain execution and is outside static analysis; the clauses above are necessary conditions (breaking any of them breaks the equation)")
 	c.Assumptions = append(c.Assumptions, "A1", "A2", "A3", "A4", "faithful relayer (property precondition)", "A10")
+	// a claim paid on L1 stays paid across an L1 genesis round trip (else the escrow pays twice)
+	defer exportFreshness(c, "C08.R6", "ophost")
 
 	c.Rule("C08.R1", func() {
 		// lock leg
